@@ -705,9 +705,14 @@ def check_c18(pid, cfg, tier, seed, work, t0):
     import crash
     ti = 0 if tier == "quick" else 1
     known = load_known()
-    mcs = [run_mc("crash", work, level=(4, 5)[ti])]
-    if not mcs[0]["ok"]:
-        raise Machinery("TLC reports an error in MC_crash:\n" + mcs[0].get("tail", ""))
+    mcs = [run_mc("crash", work, level=(4, 5)[ti]), run_mc("crash:clear", work, level=(4, 5)[ti])]
+    for m in mcs:
+        if not m["ok"]:
+            raise Machinery("TLC reports an error in MC_%s:\n" % m["config"] + m.get("tail", ""))
+    # vacuity guard: the same model with the two re-creations of clear() swapped must violate CrashSafe
+    bug = run_mc("crash:clearbug", work, level=4)
+    if bug["ok"] or bug.get("violated") != "CrashSafe":
+        raise Machinery("MC_crash_clearbug (link store emptied before the trie) does not violate CrashSafe")
     nh, steps = ((28, 9), (120, 11))[ti]
     prof = dict(BASE_PROFILE)
     # multi-block stems only, exact multiples of the block payload prominent: the shapes torn writes depend on
@@ -725,6 +730,26 @@ def check_c18(pid, cfg, tier, seed, work, t0):
             break
     extra_h = [{"pages": [l for l, _ in h["final"]["pages"]],
                 "links": [{"s": s, "t": t, "w": w} for s, t, w in h["final"]["outs"]]} for h in hists]
+    nh0 = len(hists)
+    # histories with clear(): the two files are re-created one after the other (file events of the
+    # log), and a cut is compared with the history completed up to the request it falls in
+    nclear = (10, 40)[ti]
+    cprof = dict(prof)
+    cprof["weights"] = dict(prof["weights"], Clear=22)
+    cprof["clearkeep"] = 0.4
+    clear_cuts = 0
+    for h in range(nclear):
+        d = gen.Driver(seed * 1000003 + h * 104729 + 977, cprof, "file")
+        hist = crash.record_history(d, steps, file_events=True)
+        hist["ref_base"] = len(extra_h)
+        extra_h += hist["after"]
+        hists.append(hist)
+        n0 = len(rows)
+        rows += crash.enumerate_cuts(hist, len(hists) - 1, next_id, files_every=(9, 5)[ti], ref_base=hist["ref_base"])
+        clear_cuts += sum(1 for r in rows[n0:] if hist["ops"] and 0 < r["step"] <= len(hist["ops"])
+                          and hist["ops"][r["step"] - 1]["op"] in ("Clear", "ClearKeep"))
+        if impl.TIMEOUTS[0] >= 3:
+            break
     # validate in chunks; histories are shared through batch.extra.hists
     viol, drift = [], []
     states = [0, 0]
@@ -761,7 +786,7 @@ def check_c18(pid, cfg, tier, seed, work, t0):
         if key in sig and shown >= 5:
             continue
         sig.add(key)
-        h = hists[row["hist"] - 1]
+        h = [x for x in hists if x.get("ref_base", -1) <= row["hist"] - 1][-1] if row["hist"] > nh0 else hists[row["hist"] - 1]
         body = {"property": pid, "kind": "crash", "def": h["def"], "rules": b2s(h["rules"]), "ops": b2s(h["ops"]),
                 "cut": row["k"], "partial_bytes": row["pbytes"], "missing_link_store": row["missing"],
                 "outcome": row["outcome"], "qfail": row["qfail"], "failing": mine,
@@ -779,19 +804,27 @@ def check_c18(pid, cfg, tier, seed, work, t0):
         print("... %d more violating cuts not listed" % (len(real) - shown))
     for k, n in kn_hits.items():
         print("KNOWN-FINDING: property=%s %s (seen at %d cuts this run)" % (pid, k, n))
+    if drift and os.environ.get("VERIF_DEBUG"):
+        byid = dict((r["id"], r) for r in rows)
+        for rid, cl in drift[:10]:
+            r = byid[rid]
+            print("DRIFT-ROW", cl, dict((k, r[k]) for k in ("k", "step", "partial", "missing", "outcome", "hist", "hasFiles")))
     if drift:
         print("MODEL-DRIFT property=%s cuts=%d : refusal predicate or torn-file invariant differs from the model "
               "while every C18 clause holds" % (pid, len(drift)))
     opened = sum(1 for r in rows if r["outcome"] == "opened")
     refused = sum(1 for r in rows if r["outcome"] == "refused")
-    cov = {"states": mcs[0]["distinct"], "transitions": mcs[0]["states"], "model_configs": mcs,
+    cov = {"states": sum(m["distinct"] for m in mcs), "transitions": sum(m["states"] for m in mcs), "model_configs": mcs,
+           "mutant_model_rejected": "MC_crash_clearbug (ClearOrder = XL, XT) violates CrashSafe",
            "traces_validated_against_impl": len(hists), "cuts_enumerated": len(rows),
            "cuts_opened": opened, "cuts_refused": refused,
            "cuts_with_decoded_files_checked_by_TLC": sum(1 for r in rows if r["hasFiles"]),
+           "histories_with_clear": nclear, "cuts_inside_a_clear_request": clear_cuts,
            "trace_validation_tlc_states": states[1],
            "evaluations": len(rows), "distinct_nontrivial": opened,
            "rule": "every cut of the program-ordered raw write log of each recorded history: block granularity for all "
                    "writes, byte offsets 1/mid/size-1 inside appended blocks, plus 'link store not created yet'; "
+                   "in the histories with clear() the re-creation of each file is an event of the log too; "
                    "non-trivial = the real Traph reopened the cut (was not refused) and was interrogated",
            "samples": [{"requests": [o["op"] for o in hists[0]["ops"]], "writes": len(hists[0]["writes"]),
                         "cut": rows[len(rows) // 3]["k"], "outcome": rows[len(rows) // 3]["outcome"]}],
@@ -802,7 +835,7 @@ def check_c18(pid, cfg, tier, seed, work, t0):
                    level="fault_enumeration" if False else "model_checking")
     print("%s %s: model crash L%s %d states (every cut of every request); %d histories, %d cuts reopened by the real code "
           "(%d opened, %d refused), rows validated by TLC in %.1fs; violations=%d known=%d drift=%d (%.1fs)"
-          % (pid, tier, mcs[0]["level"], mcs[0]["distinct"], len(hists), len(rows), opened, refused, wall,
+          % (pid, tier, mcs[0]["level"], sum(m["distinct"] for m in mcs), len(hists), len(rows), opened, refused, wall,
              len(real), len(kn_hits), len(drift), time.time() - t0))
     return 1 if real else 0
 
@@ -950,10 +983,25 @@ def replay(pid, path, work):
                     if g["kind"] == "crawl":
                         g["data"] = [tuple(x) for x in g["data"]]
         tr = coop.replay_coop(body["backend"], body["def"], rules, ops)
+    elif cfg.get("roles"):
+        # paired properties (C15: file + memory, C11: twin): the history is replayed on every role in lockstep
+        class Fixed(object):
+            default, k = body["def"], 0
+
+            def draw(self, obs):
+                self.k += 1
+                return ops[self.k - 1]
+        fx = Fixed()
+        fx.rules = rules
+        h2 = (lambda ix, d, i, op, res: hook(ix, None, i, op, res)) if hook else None
+        trs = runner.run_online_multi(fx, cfg["roles"], len(ops), hook=h2, tid=0, src="replay",
+                                      pairname=cfg["pairname"], prehook=cfg.get("prehook"))
+        tr = trs[0]
     else:
         tr = runner.run_fixed(body["backend"], body["def"], rules, ops, hook=hook, tid=0, src="replay")
-    val = runner.validate([tr], os.path.join(work, "tv"))
-    viol, hits, drift = judge(body["property"], cfg, [tr], val, load_known())
+    trs = trs if cfg.get("roles") and not any(o["op"] == "CoopBegin" for o in ops) else [tr]
+    val = runner.validate(trs, os.path.join(work, "tv"))
+    viol, hits, drift = judge(body["property"], cfg, trs, val, load_known())
     for v in viol:
         for step, clause in v["clauses"]:
             op = tr["steps"][step - 1]["op"] if 0 < step <= len(tr["steps"]) else "?"
